@@ -196,6 +196,9 @@ class BVContext:
                 return None
             if r[0] == "const":
                 return BV.const(r[1])
+            if r[0] == "int8":
+                v = self.to_bv(r[1])  # an element of bytes((..)) is the integer itself (0..255)
+                return None if v is None or v.neg_ones else BV([v.bit(i) for i in range(8)]) if v.width() <= 8 else None
             src, j = r[1], r[2]
         else:
             src, j = base, i
@@ -562,12 +565,19 @@ class CatContext:
                 return None
             return self._slice(base, lo, hi)
         if k == "call" and t[2] == ("builtin", "bytes") and len(t[3]) == 1:
-            return self.to_cat(t[3][0])
+            a = t[3][0]
+            if a[0] in ("tuple", "list"):
+                return [("int8", x) for x in a[1]]  # bytes((b0, b1, ...)): one byte per element
+            if is_const(a) and isinstance(a[1], (tuple, list)) and all(isinstance(x, int) and 0 <= x < 256 for x in a[1]):
+                return [("const", bytes(a[1]))]
+            return self.to_cat(a)
         return [("src", t, 0, None)]
 
     def seg_len(self, seg):
         if seg[0] == "const":
             return len(seg[1])
+        if seg[0] == "int8":
+            return 1
         _, src, lo, hi = seg
         if hi is not None:
             if isinstance(hi, int) and isinstance(lo, int):
@@ -741,6 +751,8 @@ class CatContext:
             if i < pos + n:
                 if s[0] == "const":
                     return ("const", s[1][i - pos])
+                if s[0] == "int8":
+                    return ("int8", s[1])
                 lo = s[2] if isinstance(s[2], int) else None
                 if lo is None:
                     return None
@@ -755,6 +767,8 @@ class CatContext:
         for s in cat:
             if s[0] == "const":
                 parts.append(repr(s[1]))
+            elif s[0] == "int8":
+                parts.append(f"bytes(({show(s[1])},))")
             elif s[0] == "tail":
                 parts.append(f"{show(s[1])}[-{s[2]}:]")
             else:
